@@ -34,6 +34,7 @@ import (
 	"github.com/consensys/gnark/frontend/cs/scs"
 	"github.com/consensys/gnark/internal/smallfields/tinyfield"
 	gnarkio "github.com/consensys/gnark/io"
+	"github.com/consensys/gnark/std/lookup/logderivlookup"
 	"github.com/consensys/gnark/test/unsafekzg"
 
 	"github.com/consensys/gnark/verifharness/c11"
@@ -103,8 +104,9 @@ func roundTrip(r *vcore.Run, what, label string, enc encoder, dst io.ReaderFrom,
 	}
 	// a buffered reader may legitimately pull more bytes from the stream than it decodes; what is
 	// reported must be the encoding's length. Over-consumption beyond the encoding is counted.
-	if cr.n > int64(buf.Len()) {
-		r.Count("reader-consumed-beyond-encoding."+what, 1)
+	if cr.n != int64(buf.Len()) {
+		r.Violation("bytes-consumed-differ-from-reported/"+what+"/"+enc.name,
+			fmt.Sprintf("the decoder consumed %d bytes of the stream for an encoding of %d bytes (it reported %d): what follows the artifact in the stream is lost", cr.n, buf.Len(), m), rep)
 	}
 	r.Count("roundtrip."+what+"."+enc.name, 1)
 	r.SampleClass(what+"/"+enc.name, rep)
@@ -258,6 +260,7 @@ func TestC09(t *testing.T) {
 	}
 	vcore.Parallel(len(jobs), 10, func(i int) { curveCase(r, jobs[i].c, jobs[i].tc) })
 	gadgetSystems(r)
+	largeSystems(r)
 	smallFields(r)
 	r.Require("roundtrip.system.WriteTo", 30)
 	r.Require("roundtrip.groth16-pk.WriteDump", 5)
@@ -266,13 +269,25 @@ func TestC09(t *testing.T) {
 	r.Require("decoded-system.same-rejection", 10)
 	r.Finish("exploration",
 		"per curve: generated arithmetic circuits with commitments, lookup/range-check/hint scenarios and random API programs, on both system types; each system, Groth16 pk (WriteTo, WriteRawTo, WriteDump; ReadFrom and UnsafeReadFrom), vk, PLONK pk/vk and proof is written with every encoding and read back from a stream followed by trailing garbage. Oracle: reported byte counts = bytes written = bytes the decoder reports; re-encoding the decoded object reproduces the bytes; the decoded system solves every witness to the same solution and rejects the same ones (C06 monitor on); over the cube {original, decoded} system x pk x vk every proof made verifies under both vks, and the decoded proof verifies. Plus gadget systems (emulated arithmetic, hashes, GKR sub-circuit, debug info and logs) byte-level, and systems over the three small fields. distinct = (artifact, encoding, circuit, curve)",
-		[]string{"witness encodings are covered by C07", "keys and systems are trusted inputs: hostile bytes are C08's business"})
+		[]string{"keys and systems are trusted inputs: hostile bytes are C08's business"})
 }
 
 func curveCase(r *vcore.Run, c ecc.ID, tc tcirc) {
 	field := c.ScalarField()
 	ws := tc.wits(field)
 	label := tc.name + "/" + c.String()
+	// ---------------- witnesses (full and public) from a plain stream
+	for wi, w := range ws {
+		if wi >= 2 {
+			break
+		}
+		dw, _ := witness.New(field)
+		roundTrip(r, "witness", fmt.Sprintf("full#%d:%s", wi, label), encoder{"WriteTo", w.full.WriteTo}, dw, func() encoder { return encoder{"WriteTo", dw.WriteTo} }, nil)
+		if pw, err := w.full.Public(); err == nil {
+			dp, _ := witness.New(field)
+			roundTrip(r, "witness", fmt.Sprintf("public#%d:%s", wi, label), encoder{"WriteTo", pw.WriteTo}, dp, func() encoder { return encoder{"WriteTo", dp.WriteTo} }, nil)
+		}
+	}
 	// ---------------- Groth16 side
 	if ccs, err := frontend.Compile(field, r1cs.NewBuilder, tc.circuit(), tc.opts...); err == nil {
 		dec := groth16.NewCS(c)
@@ -501,6 +516,89 @@ func gadgetSystems(r *vcore.Run) {
 			roundTrip(r, "system", "gadget:"+e.Name+"|"+b, encoder{"WriteTo", ccs.WriteTo}, dec, func() encoder { return encoder{"WriteTo", dec.WriteTo} }, nil)
 			r.Count("gadget-systems", 1)
 		}
+	})
+}
+
+// bigTable: a 2^16-entry lookup table (the table's calldata is one long array in the encoding).
+type bigTable struct {
+	Q   [3]frontend.Variable
+	Out frontend.Variable `gnark:",public"`
+}
+
+func (c *bigTable) Define(api frontend.API) error {
+	t := logderivlookup.New(api)
+	for i := 0; i < 1<<16; i++ {
+		t.Insert(i*7 + 1)
+	}
+	res := t.Lookup(c.Q[:]...)
+	api.AssertIsEqual(c.Out, api.Add(res[0], res[1], res[2]))
+	return nil
+}
+
+// manyInputs: more than 2^17 secret inputs (long name lists in the encoding).
+type manyInputs struct {
+	X   []frontend.Variable
+	Out frontend.Variable `gnark:",public"`
+}
+
+func (c *manyInputs) Define(api frontend.API) error {
+	acc := frontend.Variable(0)
+	for i := 0; i < len(c.X); i += 4096 {
+		acc = api.Add(acc, c.X[i])
+	}
+	api.AssertIsEqual(c.Out, acc)
+	return nil
+}
+
+// largeSystems: encodings whose variable-length parts are long (tables, name lists).
+func largeSystems(r *vcore.Run) {
+	field := ecc.BN254.ScalarField()
+	type big struct {
+		name string
+		circ func() frontend.Circuit
+		wit  func() witness.Witness
+		scs  bool
+	}
+	cases := []big{
+		{"lookup-table-2^16/r1cs", func() frontend.Circuit { return &bigTable{} }, func() witness.Witness {
+			w, _ := frontend.NewWitness(&bigTable{Q: [3]frontend.Variable{0, 65535, 1234}, Out: (0*7 + 1) + (65535*7 + 1) + (1234*7 + 1)}, field)
+			return w
+		}, false},
+		{"lookup-table-2^16/scs", func() frontend.Circuit { return &bigTable{} }, func() witness.Witness {
+			w, _ := frontend.NewWitness(&bigTable{Q: [3]frontend.Variable{5, 6, 7}, Out: (5*7 + 1) + (6*7 + 1) + (7*7 + 1)}, field)
+			return w
+		}, true},
+		{"2^17+1-secret-inputs/r1cs", func() frontend.Circuit { return &manyInputs{X: make([]frontend.Variable, 1<<17+1)} }, func() witness.Witness {
+			a := &manyInputs{X: make([]frontend.Variable, 1<<17+1)}
+			sum := 0
+			for i := range a.X {
+				a.X[i] = i % 97
+				if i%4096 == 0 {
+					sum += i % 97
+				}
+			}
+			a.Out = sum
+			w, _ := frontend.NewWitness(a, field)
+			return w
+		}, false},
+	}
+	vcore.Parallel(len(cases), 3, func(i int) {
+		c := cases[i]
+		var nb frontend.NewBuilder = r1cs.NewBuilder
+		dec := groth16.NewCS(ecc.BN254)
+		if c.scs {
+			nb = scs.NewBuilder
+			dec = plonk.NewCS(ecc.BN254)
+		}
+		ccs, err := frontend.Compile(field, nb, c.circ())
+		if err != nil {
+			r.Inconclusive("large-compile:" + c.name + ":" + err.Error())
+			return
+		}
+		if roundTrip(r, "system", "large:"+c.name, encoder{"WriteTo", ccs.WriteTo}, dec, func() encoder { return encoder{"WriteTo", dec.WriteTo} }, nil) {
+			compareSolving(r, "large:"+c.name, ccs, dec, []wcase{{c.wit(), true}})
+		}
+		r.Count("large-systems", 1)
 	})
 }
 
